@@ -49,7 +49,12 @@ def expression_part(v, pid, tier, seed, model_exe):
                 out.append((var, c, m, il, d))
         per_variant[var] = n
         compared += n
-    v.coverage["expressions_across_configurations"] = {"cases": len(usable), "compared_per_configuration": per_variant, "mismatches": len(out)}
+    fixed_bad = sorted(set(x for x in exprcheck.FIXED2_SEEN if x != exprcheck.FIXED2_EXPECTED))
+    v.coverage["expressions_across_configurations"] = {"cases": len(usable), "compared_per_configuration": per_variant, "mismatches": len(out),
+                                                       "fixed_scenarios_seen": len(exprcheck.FIXED2_SEEN), "fixed_scenarios_wrong": fixed_bad[:2]}
+    if fixed_bad:
+        v.violation("cfg-fixed", {"property": pid, "broken": "a fixed scenario of harness/expr_prelude.h (narrow result types through the type-erased call, signal_connect, raw method pointers, ...) gives a different outcome in some configuration",
+                                  "expected": exprcheck.FIXED2_EXPECTED, "got": fixed_bad[:2], "configurations": EXPR_VARIANTS[tier]})
     return out
 
 
